@@ -32,7 +32,7 @@ func main() {
 	}
 	r.Rule("scenario k: k=0 and k=1 are fixed (a UTXO scan fetching its first block when no peer is connected / when the connected peers never answer getdata; then Stop); for k>=2 the stop state rotates over {idle, k-th headers message of the initial header sync, k-th cfheaders response of the checkpointed / tip filter-header sync, a goroutine of the client parked at each of the 7 pause points (3 of them inside a real reorganisation of depth 1-6 run by rollBackToHeight, 2 inside a filter-header write, 1 before a header batch write, 1 inside a block-subscription registration), GetBlock/GetCFilter pending at silent peers, a storm of 8-16 callers fetching blocks from 4-8 answering peers (workers hand in results while Stop runs), rescan in catch-up / retrying a block / current (each with a goroutine in WaitForShutdown and one in Update), running UTXO batch, broadcast in flight, rebroadcast in flight, block subscriptions with a blocked reader and with a non-reading one holding a backlog, all peers unresponsive, all peers never reading (connection buffers 256-4096 bytes, filled by getheaders the peers provoke), no peer connected}; seed-chosen: chain 50-2500 blocks, 3 retarget presets, headers per message 100-2000, 1-8 peers from {honest, slow, silent, never-reading, flapping} (first one honest), which calls are in flight and how long they have been pending (0-7.8 s: first try / later tries of the query workers), delay between trigger and Stop (0-40 ms), when a parked point is released (30-120 ms after CALLING Stop), PersistToDisk. ORACLE (1) Stop returns; after a 40 s watchdog the verdict is 'violated' only if goroutine dumps taken every 3 s over 36 s show Stop and every goroutine running client code parked in identical frames, none runnable/new/ended, and not one network event; else inconclusive. (2) every call in flight returns within 15 s after Stop returned (otherwise the same dump argument; additionally 'spinning' = inside client code in every dump, goroutines moving, zero network events over 36 s after all subsystems are stopped), with an error or a correct result (nil block / nil filter / 'not found' for an existing output, each with nil error = violation); one call of every kind made AFTER Stop returned must return, with an error unless served from a cache. (3) database and both header stores reopen; block chain passes the reference validator; filter tip <= block tip; every committed filter header equals the ground truth; a second client on the directory reaches the honest tip (a miss is a violation only if its state was stable during the last third of 45 s). distinct = state x peer-kind multiset x behaviour switched on before Stop x in-flight call kinds x outcome; non-trivial = the intended state was reached (trigger fired / point parked / request seen by a peer) and Stop was called in it")
 	r.Assume("exported client knobs are shortened as in l2.init (QueryTimeout 1.5 s, ...); simulated peers implement DESIGN appendix B and never lie; a parked pause point is the harness's doing: Stop may wait for it and its latency is measured from the release; identical stacks of all client goroutines in 13 dumps plus an empty network log over 36 s (the longest timer of the client is the query worker's 32 s) is taken as 'no progress'")
-	n := r.Pick(36, 700)
+	n := r.Pick(36, 2500)
 	if os.Getenv("VERIF_SCRATCH") == "" {
 		d, _ := os.MkdirTemp("", "verif-c17-")
 		os.Setenv("VERIF_SCRATCH", d)
